@@ -62,7 +62,8 @@ theorem finalize_at_most_once (fc : Nat) (h : List (Op × Flt)) (hadm : Adm fals
   rw [this]; cases (w.objs d).finalized <;> simp
 
 /-- `finalize_prompt`: in a strict history — in `render`/`draw`/iterator operations only `_render_`
-    calls fail; in a subclass operation on `_init_render_` *anything* may fail (padding resolution,
+    calls and writes of the drawing proper fail; in a subclass operation on `_init_render_` *anything*
+    may fail (padding resolution,
     either size comparison, the renderer) — no library-owned object is ever left to
     `RenderData.__del__`: it was finalized explicitly, by the end of the operation that stopped using
     it. (`draw` itself calls `_init_render_(finalize=False)`, so a failing size validation *there* is
@@ -97,6 +98,35 @@ theorem finalize_prompt_init (it cs asc rp : Bool) (f : Flt) (w : World) (hadm :
   rw [this]
   obtain ⟨v, f', r'⟩ := r
   cases r' <;> exact ‹Post _ _ _›
+
+/-- `finalize_prompt_draw`: after every history, `draw()` with any arguments under any fault in a
+    `_render_` call (any frame, any exception incl. StopIteration / KeyboardInterrupt) or in a write of the
+    drawing proper, or none: at the moment `draw()` returns or raises — before any garbage collection —
+    the render data it created has been finalized, exactly once, by `draw` itself (library code, not
+    `__del__`), and no frame was rendered with it afterwards.
+    The exceptions, exactly (`injDraw`): a failing padding resolution / size validation — they happen
+    inside `_init_render_(finalize=False)`, before `draw`'s `try`, so the unchanged code leaves that data to
+    `RenderData.__del__` (see `draw_validation_failure_left_to_del`) — and a failing `write("\n")` of
+    `draw`'s own clean-up, which precedes `finalize()` in the `finally`. -/
+theorem finalize_prompt_draw (fc : Nat) (h : List (Op × Flt)) (hadm : Adm false h)
+    (animate cs : Bool) (loops : Int) (cache : CacheArg) (bound : Nat) (f : Flt) (hf : Admissible injDraw f) :
+    let w := runHist (init fc) h
+    Prompt w.nObjs (run sem (drawP animate cs loops cache bound) f w).1 := by
+  intro w
+  have key : Inv false w := inv_history false h _ (init_inv false fc) hadm
+  have := wp_sound sem injDraw _ f _ _ w hf (drawP_prompt animate cs loops cache bound _ key.1)
+  generalize run sem (drawP animate cs loops cache bound) f w = r at this
+  obtain ⟨v, f', r'⟩ := r
+  cases r' <;> exact this
+
+/-- the documented exception of `finalize_prompt_draw`, as the unchanged code has it: when the size
+    validation of a `draw` fails, `draw()` raises with its data not finalized (the GC step then does it:
+    `finalize_once`) -/
+theorem draw_validation_failure_left_to_del (w : World) (animate : Bool) (loops : Int) (cache : CacheArg)
+    (bound : Nat) (e : Exc) :
+    let r := run sem (drawP animate true loops cache bound) (some (.validate, 0, e)) w
+    r.2.2 = some e ∧ (r.1.objs w.nObjs).finalized = false ∧ (r.1.objs w.nObjs).finCalls = 0 := by
+  simp [drawP, initRender, run, Prog.do, target, apply]
 
 /-- `caller_kept`: data handed in with `finalize=False` (owner = caller) is never finalized by library
     code -/
@@ -273,7 +303,7 @@ def sampleHist : List (Op × Flt) :=
   [(.draw true false 2 .on 0, some (.render, 1, .boom)),
    (.draw false true 1 .off 0, some (.validate, 0, .sizeError)),
    (.iterNew 2 .off, none), (.next 0, some (.render, 0, .keyboardInterrupt)), (.dropIter 0, none),
-   (.mkData true, none), (.fromData 3 false 1 .off, none), (.next 1, none), (.close 1, none)]
+   (.mkData true, none), (.fromData 3 false 1 .off .none, none), (.next 1, none), (.close 1, none)]
 
 example : Adm false sampleHist := by
   intro x hx
